@@ -7,9 +7,9 @@
 // sqlite mirror (mysql.CountGroups / SelectValidGroups), on the node's LevelDB.
 // Crash points use hook H2 (db.VerifWriteHook aborts the (k+1)-th physical write).
 //
-//   mode=corr   (default) write ops=<file> obs=<file>; the Lean driver answers the same ops
-//   mode=search direct property oracle on the implementation, prints "VIOL {json}" lines
-//   mode=replay ops given in file=<path>, print op => answer (for replay files)
+//	mode=corr   (default) write ops=<file> obs=<file>; the Lean driver answers the same ops
+//	mode=search direct property oracle on the implementation, prints "VIOL {json}" lines
+//	mode=replay ops given in file=<path>, print op => answer (for replay files)
 package main
 
 import (
@@ -77,10 +77,10 @@ func (h *helper) GenerateGenesisInfo() []*types.GenesisInfo {
 	}
 	return out
 }
-func (h *helper) VRFProve2Value(prove *big.Int) *big.Int     { return new(big.Int) }
-func (h *helper) ProposalBonus() *big.Int                    { return new(big.Int) }
-func (h *helper) PackBonus() *big.Int                        { return new(big.Int) }
-func (h *helper) VerifyHash(b *types.Block) common.Hash      { return common.Hash{} }
+func (h *helper) VRFProve2Value(prove *big.Int) *big.Int             { return new(big.Int) }
+func (h *helper) ProposalBonus() *big.Int                            { return new(big.Int) }
+func (h *helper) PackBonus() *big.Int                                { return new(big.Int) }
+func (h *helper) VerifyHash(b *types.Block) common.Hash              { return common.Hash{} }
 func (h *helper) CheckProveRoot(bh *types.BlockHeader) (bool, error) { return true, nil }
 func (h *helper) VerifyNewBlock(bh *types.BlockHeader, preBH *types.BlockHeader) (bool, error) {
 	return true, nil
@@ -481,6 +481,67 @@ func (n *node) exec(line string) string {
 	if len(ws) == 0 {
 		return "bad-op"
 	}
+	if ws[0] == "bootcrash" {
+		// bootcrash <k1> <k2|-> <genesis…>: crash points during the first start-up (hook H4b)
+		if !bootHook {
+			return "unmodelled"
+		}
+		if len(ws) < 4 {
+			return "bad-op"
+		}
+		k1, e1 := strconv.Atoi(ws[1])
+		k2 := -1
+		var e2 error
+		if ws[2] != "-" {
+			k2, e2 = strconv.Atoi(ws[2])
+		}
+		if e1 != nil || e2 != nil || k1 < 0 || (ws[2] != "-" && k2 < 0) {
+			return "bad-op"
+		}
+		var gi []*types.GenesisInfo
+		for _, t := range ws[3:] {
+			p := strings.Split(t, ",")
+			if len(p) != 4 {
+				return "bad-op"
+			}
+			g, ok := parseGroup4(p[0], p[1], p[2], p[3])
+			if !ok {
+				return "bad-op"
+			}
+			gi = append(gi, &types.GenesisInfo{Group: *g})
+		}
+		n.wipe()
+		n.h = &helper{genesis: gi}
+		n.booted, n.alive = true, false
+		n.hist = []string{line}
+		n.nBoot++
+		for _, g := range gi {
+			n.everIds[string(g.Group.Id)] = g.Group.Id
+		}
+		cut := func(k int) string {
+			n.budget, n.aborted = k, false
+			res := guard(func() string {
+				if firstBootImpl(n.h) {
+					return "done"
+				}
+				return "notfirst"
+			})
+			n.budget = -1
+			if res == "ABORT" {
+				return "crashed"
+			}
+			return res
+		}
+		res := cut(k1)
+		if res == "crashed" && k2 >= 0 {
+			d, _ := db.NewDatabase("group")
+			if v, _ := d.Get([]byte("gcurrent")); v == nil {
+				res += " " + cut(k2)
+			}
+		}
+		n.nRestart++
+		return res + " / " + n.start()
+	}
 	if ws[0] == "boot" {
 		var gi []*types.GenesisInfo
 		for _, t := range ws[1:] {
@@ -855,6 +916,52 @@ func (g *gen) randomSequence(maxOps int, allowCrash bool) {
 	}
 }
 
+// bootCrashes: every crash prefix of the first start-up with 1 and 2 genesis groups, each also
+// followed by every crash prefix of the start-up after it (double crash), then a well-formed add.
+func (g *gen) bootCrashes() int {
+	if !bootHook {
+		return 0
+	}
+	cnt := 0
+	for ng := 1; ng <= 2; ng++ {
+		toks := "9001,-,9001,0"
+		if ng == 2 {
+			toks += " 9101,9001,9001,1"
+		}
+		for pass := 0; pass < 2; pass++ { // single crashes first (shortest replay), then double crashes
+			for k1 := 0; k1 <= 4*ng; k1++ {
+				for k2 := -1; k2 <= 4*ng; k2++ {
+					if (pass == 0) != (k2 < 0) {
+						continue
+					}
+					s2 := "-"
+					if k2 >= 0 {
+						s2 = strconv.Itoa(k2)
+					}
+					if k2 >= 0 && k1 >= 2 {
+						continue // the store already has a last-group pointer: the next start-up writes nothing
+					}
+					g.emit(fmt.Sprintf("bootcrash %d %s %s", k1, s2, toks))
+					cnt++
+					g.resync()
+					if !g.alive {
+						continue
+					}
+					g.probes()
+					g.emit(fmt.Sprintf("add a1 %s %s 5", g.last(), g.listed[0]))
+					g.resync()
+					if g.alive {
+						g.probes()
+						g.emit("restart")
+						g.emit("count")
+					}
+				}
+			}
+		}
+	}
+	return cnt
+}
+
 // concStress: many rounds of two concurrent AddGroup calls on one chain, shrinking it in between.
 func (g *gen) concStress(rounds int) {
 	g.pool = idPool
@@ -1001,8 +1108,15 @@ func corpusFiles() []string {
 	if d == "" {
 		return nil
 	}
-	fs, _ := filepath.Glob(filepath.Join(d, "*.ops"))
-	sort.Strings(fs)
+	all, _ := filepath.Glob(filepath.Join(d, "*.ops"))
+	sort.Strings(all)
+	var fs []string
+	for _, f := range all {
+		if strings.Contains(filepath.Base(f), "needs-h4b") && !bootHook {
+			continue // first-boot crash scripts need hook H4b in the tree under test
+		}
+		fs = append(fs, f)
+	}
 	return fs
 }
 
@@ -1065,9 +1179,9 @@ func main() {
 	var viols []viol
 	seenKey := map[string]bool{}
 	evals, mutators := 0, 0
-	crashed := false // some op of the current history was actually cut by a crash
+	crashed := false  // some op of the current history was actually cut by a crash
 	inDomain := false // oracle on: the generator running now produces well-formed histories only
-	broken := false // the current history already violated the property: later symptoms derive from it
+	broken := false   // the current history already violated the property: later symptoms derive from it
 	// Watchdog: the real code has unbounded loops on states that break the invariant
 	// (refreshCache on a predecessor cycle, removeFromCommonAncestor after a count underflow).
 	// An op that runs longer than 20 s is reported and the process stops, instead of a 5-minute timeout.
@@ -1116,13 +1230,15 @@ func main() {
 			if h := core.GetGroupChain().GetGroupByHeight(0x6763757272656e74); h != nil {
 				seenKey["height-key-gcurrent"] = true
 				viols = append(viols, viol{Key: "height-key-gcurrent",
-					Desc: fmt.Sprintf("Count()=%d but GetGroupByHeight(7449927343006903924)=%s (that height's key is \"gcurrent\")", core.GetGroupChain().Count(), gstr(h)),
+					Desc:    fmt.Sprintf("Count()=%d but GetGroupByHeight(7449927343006903924)=%s (that height's key is \"gcurrent\")", core.GetGroupChain().Count(), gstr(h)),
 					History: []string{op, "byheight 7449927343006903924"}})
 			}
 		}
 		switch f[0] {
 		case "boot":
 			broken, crashed = false, false
+		case "bootcrash":
+			broken, crashed = false, strings.HasPrefix(res, "crashed")
 		case "add", "rmlast", "rmto", "restart", "crash", "cadd":
 		default:
 			return res
@@ -1147,7 +1263,15 @@ func main() {
 			return res
 		}
 		broken = true
-		if f[0] == "crash" && strings.HasPrefix(res, "crashed") && len(f) >= 3 {
+		if f[0] == "bootcrash" && strings.HasPrefix(res, "crashed") {
+			// class = after how many writes of a genesis save the (last) cut fell
+			desc = key + ": " + desc
+			key = fmt.Sprintf("crash:firstboot:k%d", (n.writes-w0)%4)
+			if strings.HasPrefix(res, "crashed crashed") {
+				kk, _ := strconv.Atoi(f[2])
+				key = fmt.Sprintf("crash:firstboot:k%d", kk%4)
+			}
+		} else if f[0] == "crash" && strings.HasPrefix(res, "crashed") && len(f) >= 3 {
 			// class = which operation was cut and after how many of its four writes
 			what := "remove"
 			if f[2] == "add" {
@@ -1197,6 +1321,7 @@ func main() {
 			g.randomSequence(maxOps, i%3 != 0)
 		}
 		g.concStress(hx.ArgInt(a, "conc", 40))
+		g.bootCrashes()
 		nEx = g.exhaustive(depth, true)
 	} else {
 		if part == 0 {
@@ -1213,6 +1338,9 @@ func main() {
 			g.randomSequence(maxOps, i%3 != 0)
 		}
 		g.concStress(hx.ArgInt(a, "conc", 40))
+		if part == 0 {
+			g.bootCrashes()
+		}
 		nEx = g.exhaustive(depth, true)
 	}
 
